@@ -369,8 +369,8 @@ void run_matvec(Tape &t, Ctx &c, bool exact, int op) {
             std::vector<S> xsc = scalars_of(xh), y0sc = scalars_of(y0);
             int mix = static_cast<int>(t.u(0, 2));
             c.label("mixed-scalar-block");
-            // known finding: reinterpret_as_rhs forms &x[0] of an empty std::vector (UB, reported by UBSan); last check of this case
-            if ((mix == 2 ? m : n) == 0) { c.label("mixed-with-empty-std-vector"); if (c.known("F-reinterpret-empty")) return; }
+            // regression region (fixed cdd07a9): reinterpret_as_rhs formed &x[0] of an empty std::vector (UBSan)
+            if ((mix == 2 ? m : n) == 0) c.label("mixed-with-empty-std-vector");
             if (mix == 0) { ab::numa_vector<S> x3(xsc); std::vector<S> y3(y0sc); ab::spmv(alpha.v, *a, x3, beta.v, y3); require_same(y3, ys, "spmv with scalar x and scalar y vs block vectors"); }
             else if (mix == 1) { ab::numa_vector<S> x3(xsc); std::vector<R> y3(y0); ab::spmv(alpha.v, *a, x3, beta.v, y3); require_same(y3, ys, "spmv with scalar x and block y vs block vectors"); }
             else { std::vector<R> x3(xh); ab::numa_vector<S> y3(y0sc); ab::spmv(alpha.v, *a, x3, beta.v, y3); require_same(y3, ys, "spmv with block x and scalar y vs block vectors"); }
@@ -391,7 +391,7 @@ void run_matvec(Tape &t, Ctx &c, bool exact, int op) {
             std::vector<S> xsc = scalars_of(xh), fsc = scalars_of(fh), rsc = scalars_of(r0);
             int mix = static_cast<int>(t.u(0, 2));
             c.label("mixed-scalar-block");
-            if (n == 0) { c.label("mixed-with-empty-std-vector"); if (c.known("F-reinterpret-empty")) return; }
+            if (n == 0) c.label("mixed-with-empty-std-vector");
             if (mix == 0) { std::vector<S> f3(fsc), r3(rsc); ab::numa_vector<S> x3(xsc); ab::residual(f3, *a, x3, r3); require_same(r3, rs, "residual with scalar f,x,r vs block vectors"); }
             else if (mix == 1) { std::vector<S> f3(fsc); ab::numa_vector<R> x3(xh), r3(r0); ab::residual(f3, *a, x3, r3); require_same(r3, rs, "residual with scalar f, block x,r vs block vectors"); }
             else { std::vector<R> f3(fh); ab::numa_vector<R> x3(xh); std::vector<S> r3(rsc); ab::residual(f3, *a, x3, r3); require_same(r3, rs, "residual with block f,x and scalar r vs block vectors"); }
@@ -483,7 +483,7 @@ void run_vecops(Tape &t, Ctx &c, bool exact) {
             c.label("mixed-scalar-block");
             std::vector<S> ysc = scalars_of(yh), zsc = scalars_of(z0);
             bool scalar_z = t.b();
-            if (n == 0) { c.label("mixed-with-empty-std-vector"); if (c.known("F-reinterpret-empty")) return; }
+            if (n == 0) c.label("mixed-with-empty-std-vector");
             if (scalar_z) { ab::numa_vector<S> y3(ysc); std::vector<S> z3(zsc); ab::vmul(a.v, xs, y3, b.v, z3); require_same(z3, zs, "vmul with scalar y,z vs block vectors"); }
             else { ab::numa_vector<S> y3(ysc); std::vector<R> z3(z0); ab::vmul(a.v, xs, y3, b.v, z3); require_same(z3, zs, "vmul with scalar y, block z vs block vectors"); }
         }
@@ -546,9 +546,6 @@ void prop_vecops(Tape &t, Ctx &c) {
 }
 
 // ---- inner product: <x,y> = sum_i x_i conj(y_i)  (conjugate-linear in the second argument)
-// id of a listed finding that covers inner products of this value type with a non-real result (nullptr: none)
-template <class V> struct InnerKnown { static const char *id() { return nullptr; } };
-
 template <class V>
 void prop_inner(Tape &t, Ctx &c) {
     typedef typename VT<V>::rhs R;
@@ -564,7 +561,7 @@ void prop_inner(Tape &t, Ctx &c) {
     Flat xf = flat(xh), yf = flat(yh);
     RC ref; Ref as = 0;
     for (size_t i = 0; i < xf.size(); ++i) { ref = ref + xf[i] * conj(yf[i]); as += mag(xf[i]) * mag(yf[i]); }
-    if (InnerKnown<V>::id() && ref.im != 0) { c.label("non-real-inner-product"); if (c.known(InnerKnown<V>::id())) return; }
+    if (ref.im != 0) c.label("non-real-inner-product");
     ab::numa_vector<R> xs(xh); std::vector<R> ys(yh);
     auto got = ab::inner_product(xs, ys);
     RC g = ET<decltype(got)>::get(got, 0);
@@ -583,7 +580,6 @@ void prop_inner(Tape &t, Ctx &c) {
             for (size_t i = 0; i < n; ++i) { ax[i] = a.v * xh[i]; ay[i] = a.v * yh[i]; }
             auto g1 = ab::inner_product(ax, ys), g2 = ab::inner_product(xs, ay);
             RC e1 = a.r * ref, e2 = conj(a.r) * ref;
-            if (InnerKnown<V>::id() && (e1.im != 0 || e2.im != 0)) { c.label("non-real-inner-product"); if (c.known(InnerKnown<V>::id())) return; }
             VF_REQUIRE(ET<CS>::get(g1, 0).re == e1.re && ET<CS>::get(g1, 0).im == e1.im, "<a x,y> = " << ET<CS>::get(g1, 0) << " but a<x,y> = " << e1 << " (a=" << a.r << ")");
             VF_REQUIRE(ET<CS>::get(g2, 0).re == e2.re && ET<CS>::get(g2, 0).im == e2.im, "<x,a y> = " << ET<CS>::get(g2, 0) << " but conj(a)<x,y> = " << e2 << " (a=" << a.r << "): inner product must be conjugate-linear in the second argument");
             c.label("conjugate-linearity-checked");
